@@ -598,6 +598,10 @@ Section Check.
   Qed.
 End Check.
 
+Arguments earns {TE TI TX}. Arguments best_of {TE}. Arguments no_specific_feedback {TE TI TX}.
+Arguments same_alternatives {TE}. Arguments same_but_values {TE}. Arguments reordered {TE}.
+Arguments same_verdict {TX}. Arguments alone {TE}.
+
 (* ---------------------------------------------------------------------------------------------
    canonicalisation (schema_answers / validate_single_answer / validate_expect_tuple)
    --------------------------------------------------------------------------------------------- *)
@@ -662,6 +666,15 @@ Section Canon.
     intros rl l H. simpl in H. apply canon_list_some in H. induction H; simpl; [reflexivity | f_equal; assumption].
   Qed.
 
+  Theorem canon_tuple_listing : forall (rl : list (raw_answer TE)) l, canon (RTuple rl) = Some l ->
+    Forall2 (fun r a => canon_answer r = Some a /\
+                        a_expects a = expects_of (match r with RBare e => e | RDict e _ _ _ => e end)) rl l.
+  Proof.
+    intros rl l H. simpl in H. apply canon_list_some in H.
+    induction H as [|r a rl l Hr H IH]; constructor; [|exact IH].
+    split; [exact Hr|]. destruct (canon_answer_some _ _ Hr) as [_ [Ex _]]. exact Ex.
+  Qed.
+
   (* re-validating an already validated configuration changes nothing (the library re-validates answers
      when they are inferred, and when an item grader is used as a subgrader) *)
   Definition raw_of_ok (o : okv) : raw_ok := match o with OkTrue => RTrue | OkFalse => RFalse | OkPartial => RPartial end.
@@ -681,8 +694,8 @@ Section Canon.
     { apply andb_true_iff. split; apply Qle_bool_iff; assumption. }
     destruct a as [es c m o]. simpl in *. f_equal. f_equal.
     destruct (Qeq_bool c 1) eqn:B.
-    - destruct o; simpl; rewrite B; reflexivity.
-    - assert (N : ~ c == 1) by (qbool; exact B). rewrite (Hok N). apply canon_ok_rule. exact N.
+    - destruct o; simpl; rewrite ?B; reflexivity.
+    - assert (N : ~ c == 1) by (qbool; exact B). rewrite (Hok N). destruct (raw_of_ok (grade_to_ok c)); reflexivity.
   Qed.
 
   Lemma canon_list_idempotent : forall (rl : list (raw_answer TE)) l,
@@ -710,7 +723,7 @@ Section Canon.
 
   Lemma canon_answer_values : forall a a', raw_values_perm a a' ->
     match canon_answer a, canon_answer a' with
-    | Some c, Some c' => same_but_values TE c c'
+    | Some c, Some c' => same_but_values c c'
     | None, None => True
     | _, _ => False
     end.
@@ -740,7 +753,7 @@ Section Canon.
 
   Lemma canon_list_values : forall m l', Forall2 raw_values_perm m l' ->
     match canon_list m, canon_list l' with
-    | Some a, Some a' => Forall2 (same_but_values TE) a a'
+    | Some a, Some a' => Forall2 same_but_values a a'
     | None, None => True
     | _, _ => False
     end.
@@ -753,7 +766,7 @@ Section Canon.
 
   Theorem canon_reordered : forall l l', raw_reordered l l' ->
     match canon (RTuple l), canon (RTuple l') with
-    | Some a, Some a' => reordered TE a a'
+    | Some a, Some a' => reordered a a'
     | None, None => True
     | _, _ => False
     end.
@@ -765,15 +778,17 @@ Section Canon.
   Qed.
 End Canon.
 
+Arguments canonical {TE}. Arguments embed {TE}. Arguments raw_values_perm {TE}. Arguments raw_reordered {TE}.
+
 (* end to end: the grader as configured by the author, alternatives and tuple values in any order *)
 Section EndToEnd.
   Variables TE TI TX : Type.
   Variable cr : single TE -> TI -> entry + TX.
 
-  Theorem grade_raw_order_independent : forall wm (l l' : list (raw_answer TE)) x, raw_reordered TE l l' ->
+  Theorem grade_raw_order_independent : forall wm (l l' : list (raw_answer TE)) x, raw_reordered l l' ->
     match grade_raw cr wm (RTuple l) x, grade_raw cr wm (RTuple l') x with
     | ConfigInvalid, ConfigInvalid => True
-    | Out o, Out o' => same_verdict TX o o'
+    | Out o, Out o' => same_verdict o o'
     | _, _ => False
     end.
   Proof.
